@@ -140,8 +140,13 @@ package fees
 //@   pure
 //@ func Rules.GetMaxBlockUnits
 //@   pure
+// nft is nextFromTotal behind an opaque name: inside ComputeNext the price formula is needed only as
+// a term (the definition is revealed for the assertion that links it to computeNextPriceWindow's
+// postcondition); L:nft_def states that it is the same function.
+//@ spec opaque func nft(p int, T int, target int, denom int, minP int, k int) int = nextFromTotal(p, T, target, denom, minP, k)
+//@ lemma nft_def props C13 C12 reveal nft: forall p int, T int, target int, denom int, minP int, k int :: nft(p, T, target, denom, minP, k) == nextFromTotal(p, T, target, denom, minP, k)
 //@ func (*Manager).ComputeNext props C13 C12
-//@   reveal-asserts price last slot
+//@   reveal-asserts price last slot nft
 //@   requires wellFormed(f) && currTime >= 0
 //@   requires forall i int :: 0 <= i && i < 5 ==> Rules.GetWindowTargetUnits(r)[i] > 0 && Rules.GetUnitPriceChangeDenominator(r)[i] > 0
 //@   let sinceS = (currTime / 1000 - be64(f.raw, 0)) % 18446744073709551616
@@ -150,8 +155,8 @@ package fees
 //@   loop 1 summarize
 //@   loop 1 invariant since == sinceS
 //@   loop 1 invariant 0 <= i && i <= 5 && len(bytes) == 488 && be64(bytes, 0) == currTime / 1000 && wellFormed(f)
-//@   at call 6 assert nextUnitPrice == nextFromTotal(price(f.raw, i), total(winOf(f.raw, i), last(f.raw, i), since), targetUnits[i], unitPriceChangeDenom[i], minUnitPrice[i], ite(since > 10, since / 10, 1))
-//@   at call 6 assert forall s int :: 0 <= s && s < 10 ==> window.slot(nextUnitWindow, s) == upd(winOf(f.raw, i), last(f.raw, i), since, s)
+//@   at call 6 assert nextUnitPrice == nft(price(f.raw, i), total(winOf(f.raw, i), last(f.raw, i), since), targetUnits[i], unitPriceChangeDenom[i], minUnitPrice[i], ite(since > 10, since / 10, 1))
+//@   at call 6 assert @g:win forall s int :: 0 <= s && s < 10 ==> window.slot(nextUnitWindow, s) == upd(winOf(f.raw, i), last(f.raw, i), since, s)
 //@   at call 10 assert start == 8 + 96*i
 //@   at call 10 assert price(bytes, i) == nextUnitPrice
 //@   loop 1 assert len(bytes) == 488 && be64(bytes, 0) == pre(be64(bytes, 0))
@@ -159,19 +164,19 @@ package fees
 //@   loop 1 assert forall d int :: 0 <= d && d < i ==> price(bytes, d) == pre(price(bytes, d))
 //@   loop 1 assert forall d int :: 0 <= d && d < i ==> last(bytes, d) == pre(last(bytes, d))
 //@   loop 1 assert last(bytes, i) == 0
-//@   loop 1 assert forall d int, s int :: 0 <= d && d < i && 0 <= s && s < 10 ==> window.slot(winOf(bytes, d), s) == pre(window.slot(winOf(bytes, d), s))
-//@   loop 1 assert price(bytes, i) == nextFromTotal(price(f.raw, i), total(winOf(f.raw, i), last(f.raw, i), since), targetUnits[i], unitPriceChangeDenom[i], minUnitPrice[i], ite(since > 10, since / 10, 1))
-//@   loop 1 assert forall j int :: 8 + 96*i + 8 <= j && j < 8 + 96*i + 88 ==> bytes[j] == nextUnitWindow[j - (8 + 96*i + 8)]
-//@   loop 1 assert forall s int :: 0 <= s && s < 10 ==> window.slot(winOf(bytes, i), s) == window.slot(nextUnitWindow, s)
-//@   loop 1 assert forall s int :: 0 <= s && s < 10 ==> window.slot(winOf(bytes, i), s) == upd(winOf(f.raw, i), last(f.raw, i), since, s)
+//@   loop 1 assert @g:win forall d int, s int :: 0 <= d && d < i && 0 <= s && s < 10 ==> window.slot(winOf(bytes, d), s) == pre(window.slot(winOf(bytes, d), s))
+//@   loop 1 assert price(bytes, i) == nft(price(f.raw, i), total(winOf(f.raw, i), last(f.raw, i), since), targetUnits[i], unitPriceChangeDenom[i], minUnitPrice[i], ite(since > 10, since / 10, 1))
+//@   loop 1 assert @g:win forall j int :: 8 + 96*i + 8 <= j && j < 8 + 96*i + 88 ==> bytes[j] == nextUnitWindow[j - (8 + 96*i + 8)]
+//@   loop 1 assert @g:win forall s int :: 0 <= s && s < 10 ==> window.slot(winOf(bytes, i), s) == window.slot(nextUnitWindow, s)
+//@   loop 1 assert @g:win forall s int :: 0 <= s && s < 10 ==> window.slot(winOf(bytes, i), s) == upd(winOf(f.raw, i), last(f.raw, i), since, s)
 //@   loop 1 invariant forall j int :: 8 + 96*i <= j && j < 488 ==> bytes[j] == 0
 //@   loop 1 invariant forall d int :: 0 <= d && d < i ==> last(bytes, d) == 0
-//@   loop 1 invariant forall d int :: 0 <= d && d < i ==> price(bytes, d) == nextFromTotal(price(f.raw, d), total(winOf(f.raw, d), last(f.raw, d), since), targetUnits[d], unitPriceChangeDenom[d], minUnitPrice[d], ite(since > 10, since / 10, 1))
-//@   loop 1 invariant forall d int, s int :: 0 <= d && d < i && 0 <= s && s < 10 ==> window.slot(winOf(bytes, d), s) == upd(winOf(f.raw, d), last(f.raw, d), since, s)
+//@   loop 1 invariant forall d int :: 0 <= d && d < i ==> price(bytes, d) == nft(price(f.raw, d), total(winOf(f.raw, d), last(f.raw, d), since), targetUnits[d], unitPriceChangeDenom[d], minUnitPrice[d], ite(since > 10, since / 10, 1))
+//@   loop 1 invariant @g:win forall d int, s int :: 0 <= d && d < i && 0 <= s && s < 10 ==> window.slot(winOf(bytes, d), s) == upd(winOf(f.raw, d), last(f.raw, d), since, s)
 //@   ensures !isnil(result) && len(result.raw) == 488 && be64(result.raw, 0) == currTime / 1000
 //@   ensures forall i int :: 0 <= i && i < 5 ==> last(result.raw, i) == 0
-//@   ensures forall i int :: 0 <= i && i < 5 ==> price(result.raw, i) == nextFromTotal(price(f.raw, i), total(winOf(f.raw, i), last(f.raw, i), sinceS), Rules.GetWindowTargetUnits(r)[i], Rules.GetUnitPriceChangeDenominator(r)[i], Rules.GetMinUnitPrice(r)[i], kk)
-//@   ensures forall i int, s int :: 0 <= i && i < 5 && 0 <= s && s < 10 ==> window.slot(winOf(result.raw, i), s) == upd(winOf(f.raw, i), last(f.raw, i), sinceS, s)
+//@   ensures forall i int :: 0 <= i && i < 5 ==> price(result.raw, i) == nft(price(f.raw, i), total(winOf(f.raw, i), last(f.raw, i), sinceS), Rules.GetWindowTargetUnits(r)[i], Rules.GetUnitPriceChangeDenominator(r)[i], Rules.GetMinUnitPrice(r)[i], kk)
+//@   ensures @g:win forall i int, s int :: 0 <= i && i < 5 && 0 <= s && s < 10 ==> window.slot(winOf(result.raw, i), s) == upd(winOf(f.raw, i), last(f.raw, i), sinceS, s)
 
 // The encoded fee state decodes to the same prices, windows and consumption:
 // Bytes exposes the raw state and NewManager adopts it unchanged.
